@@ -210,6 +210,11 @@ def write_evidence(rep: Report, explanation: str, trusted: list[str], nviol: int
 
 def run_check(prop: str, tier: str, root: Path, fn) -> int:
     """Run one property check; tracebacks must not look like violations."""
+    import signal
+    try:
+        signal.signal(signal.SIGPIPE, signal.SIG_DFL)   # `./check X | head` must not produce a traceback
+    except Exception:  # noqa: BLE001
+        pass
     rep = Report(prop, tier, root)
     try:
         explanation, trusted = fn(rep)
